@@ -214,6 +214,16 @@ def run(ctx):
     rep.rule('R7.12', 'the options of the hash join / lookup functions (cache, missing, prefixes, keys) are handed on unchanged to the views they construct')
     from .c10 import check_forwarding as _fwd
     ctx.floor('hashjoin_option_sites', ctx.attempt(_fwd, ctx, rep, 'R7.12', 'petl.transform.hashjoins', exclude={'presorted', 'buffersize', 'tempdir'}) or 0, 10)
+    rep.rule('R7.13', 'a hash join that emits a (padded) row for a key it does not find in the lookup does not return early when the lookup is empty: the sort-merge twin emits those rows, so the two would differ on a right table without data rows (C20 R20.10 imported)')
+
+    def _r713():
+        from .c20 import r2010
+        before = len(rep.obligations)
+        r2010(ctx, rep)
+        for o in rep.obligations[before:]:
+            if o.rule == 'R20.10':
+                o.rule = 'R7.13'
+    ctx.attempt(_r713)
     rep.rule('R7.10', 'a key selector (name or position; 0 and \'\' are valid) is never tested for truth')
     ctx.floor('selector_functions', ctx.attempt(_seltruth, ctx, rep, 'R7.10', ctx.functions(
         ['petl.transform.hashjoins', 'petl.util.lookups'])) or 0, 6)
